@@ -29,6 +29,7 @@ type scen struct {
 	Subs  int    `json:"subs"`
 	Tasks int    `json:"tasks"`
 	Stop  bool   `json:"stop"`
+	IO    bool   `json:"io"` // taskpool.NewIO (the engine's default IOExecute) instead of taskpool.New
 	Procs int    `json:"gomaxprocs"`
 	Seed  int64  `json:"seed"`
 	Leg   string `json:"leg"`
@@ -43,7 +44,25 @@ type summary struct {
 var tr *hlib.Trace
 
 // barrier runs k tasks that each wait for all the others; true if they all met within the timeout.
-func barrier(tp *taskpool.TaskPool, k int, tag string, timeout time.Duration) bool {
+// gopool is what TaskPool and IOTaskPool have in common for this driver
+type gopool interface {
+	Go(func())
+	Stop()
+}
+
+type ioAdapter struct{ p *taskpool.IOTaskPool }
+
+func (a ioAdapter) Go(f func()) { a.p.Go(func(*[]byte) { f() }) }
+func (a ioAdapter) Stop()       { a.p.Stop() }
+
+func mkPool(s scen) gopool {
+	if s.IO {
+		return ioAdapter{taskpool.NewIO(s.Bound, s.Queue, 64)}
+	}
+	return taskpool.New(s.Bound, s.Queue)
+}
+
+func barrier(tp gopool, k int, tag string, timeout time.Duration) bool {
 	var arrived int32
 	release := make(chan struct{})
 	all := make(chan struct{})
@@ -116,7 +135,7 @@ func run(s scen, sum *summary) {
 	// K0: capacity of a fresh pool
 	k0 := 0
 	for k := s.Bound; k >= 1; k-- {
-		fresh := taskpool.New(s.Bound, s.Queue)
+		fresh := mkPool(s)
 		ok := barrier(fresh, k, fmt.Sprintf("fresh%d", k), 500*time.Millisecond)
 		fresh.Stop()
 		if ok {
@@ -125,7 +144,7 @@ func run(s scen, sum *summary) {
 		}
 	}
 	tr.Emit(hlib.Ev{"ev": "k0", "k": k0})
-	tp := taskpool.New(s.Bound, s.Queue)
+	tp := mkPool(s)
 	rnd := rand.New(rand.NewSource(s.Seed))
 	var wg sync.WaitGroup
 	var jobs sync.WaitGroup
